@@ -169,6 +169,9 @@ func (fp *FuncProof) Prepare() {
 				}
 			} else {
 				for _, cl := range fp.fc.Candidates {
+					if !ex.clauseActive(cl) {
+						continue
+					}
 					fp.cands[c] = append(fp.cands[c], &Atom{Name: cl.Text, Expr: cl.Expr, Droppable: true})
 				}
 				for _, tmpl := range fp.fc.PerConst {
@@ -725,6 +728,9 @@ func (fp *FuncProof) checkPath(pe *PathEnd) {
 		items = append(items, goalItem{name: fmt.Sprintf("%s/%s/panic-unreachable@L%d", fnName, from, fp.line(pe.Pos)), kind: "panic", t: False, nhyp: -1})
 	case "abort":
 		items = append(items, goalItem{name: fmt.Sprintf("%s/%s/path-enumeration-aborted", fnName, from), kind: "abort", t: False, nhyp: -1})
+	}
+	if fp.sim != nil {
+		items = append(items, fp.sim.eventObligations(pe)...)
 	}
 	if fp.opts.ExtraExit != nil {
 		for _, o := range fp.opts.ExtraExit(fp, pe) {
